@@ -61,7 +61,7 @@ def build(suite, info):
         def impl():
             return ok(str(int(tok)))
         return Case(suite, req("pyint", enc_str(tok)), impl, None, cls="pyint", info=info)
-    if suite == "argv":
+    if suite in ("argv", "dashdash"):
         return argv_case(info)
     raise ValueError("unknown suite " + suite)
 
@@ -200,8 +200,8 @@ def argv_case(info):
             if type(e).__name__ == "ArgumentTypeError":
                 return "REJECT"
             raise
-    return Case("argv", req("validate", enc_str(name), enc_str(tok)), impl, oracle,
-                cls=tool + ":" + (argv[0] if argv else ""), info=info)
+    return Case(info.get("suite", "argv"), req("validate", enc_str(name), enc_str(tok)), impl, oracle,
+                cls=info.get("cls") or (tool + ":" + (argv[0] if argv else "")), info=info)
 
 
 GRAPH_OK = {"simple": [["complete", "4"], ["grid", "2", "3"], ["gnp", "5", ".5"], ["gnm", "5", "4"], ["gnd", "6", "3"],
@@ -383,6 +383,13 @@ def cases(ctx):
     for argv, txt in ([[], kth], [["-q"], kth], [["xor", "2"], kth], [[], ""], [[], "2\n1 : 2 0\n2 : 0\n"], [[], "x"],
                       [["nosuch"], kth], [["lift", "0"], kth]):
         out.append(argv_case({"tool": "kthlist2pebbling", "argv": argv, "stdin": txt}))
+    # finding C18-F1 (reported by the argparse model of C17): under CPython 3.12.1 `_get_values` drops a `--` from the
+    # strings of EVERY action, so an argument whose only string is a second `--` receives the empty LIST; the
+    # generator raises TypeError, which cli() does not shield.  Always exercised; recorded as a known finding.
+    for tool in ("cnfgen", "pbgen"):
+        for a in (["bphp", "--", "3", "--"], ["cpls", "--", "2", "--", "2"], ["stone", "2", "pyramid", "2", "--sparse=--"],
+                  ["php", "--", "3"], ["bphp", "3", "--", "2"]):
+            out.append(argv_case({"tool": tool, "argv": a, "suite": "dashdash", "cls": "dashdash:second-double-dash"}))
     # real processes: exit status and error stream (the part a model cannot exhibit)
     out.append(process_case(rng, tier))
     return out
